@@ -1314,6 +1314,69 @@ for _pid in ("C07", "C03", "C04"):
     _add_tie(_pid, "TaffyVerif.Props.TieFlexLine", TIE_FLEXLINE)
     PROPS[_pid]["trusted_base"] = list(PROPS[_pid].get("trusted_base", [])) + [TIE_FLEXLINE_TRUSTED]
 
+# Tier T for the slice / Vec / iterator code of the grid (extract/src/{slices,gridinit}.rs): effects (checked u16 arithmetic, unwrap)
+# in Except GErr in Rust's evaluation order, slices / finite iterators as Lists, cycle() / repeat as Slice.Stream, loops as folds over
+# the tuple of the locals they assign (vocabulary: Model/SliceOps.lean). Generated/TrackFns.lean: the track sizing functions of
+# style/grid.rs, GridTrack's constructors and small methods, TrackCounts::len, Size::get_abs; Generated/GridInit.lean: all of
+# compute/grid/explicit_grid.rs (compute_explicit_grid_size_in_axis, create_implicit_tracks, initialize_grid_tracks);
+# Generated/TrackSizing.lean: the pure functions of compute/grid/track_sizing.rs translated so far (flush_planned_base_size_increases,
+# flush_planned_growth_limit_increases, initialize_track_sizes, find_size_of_fr, stretch_auto_tracks; f32::INFINITY-valued places are
+# GridTracks.Ext; `loop { … break }` is Slice.loop with the model's fuel).
+# Props/TieTrackFns.lean, Props/TieGridInit.lean prove generated = Model/GridTracksInit.lean for every argument and every [Num α]
+# (the latter by induction over the template / the track lists: the model hoists the error checks and uses list comprehensions).
+TIE_TRACKFNS = ["TieTrackFns." + t for t in (
+    "get_abs_horizontal get_abs_vertical min_ZERO_eq min_AUTO_eq min_from_lp_eq min_definite_value_eq min_is_intrinsic_eq "
+    "min_is_min_or_max_content_eq min_is_auto_eq min_is_max_content_eq min_uses_percentage_eq max_ZERO_eq max_AUTO_eq "
+    "max_from_lp_eq max_definite_value_eq max_has_definite_value_eq max_definite_limit_eq max_is_intrinsic_eq "
+    "max_is_max_content_alike_eq max_is_fr_eq max_is_auto_eq max_is_min_content_eq max_is_fit_content_eq "
+    "max_is_max_or_fit_content_eq max_uses_percentage_eq trackfn_AUTO_eq min_sizing_function_eq max_sizing_function_eq "
+    "has_fixed_component_eq is_auto_repetition_eq new_with_kind_eq new_eq gutter_eq collapse_eq is_flexible_eq "
+    "uses_percentage_eq has_intrinsic_sizing_function_eq flex_factor_eq track_counts_len_eq").split()]
+TIE_GRIDINIT = (["TieGridInit." + t for t in (
+    "compute_explicit_grid_size_in_axis_eq compute_explicit_grid_size_columns_eq compute_explicit_grid_size_rows_eq "
+    "create_implicit_tracks_eq initialize_grid_tracks_eq "
+    # the pieces the three are assembled from
+    "nonAutoTerm_eq track_definite_value_eq find_auto_repetition_eq nonRepeatingUsed_eq sumU16M_nonAuto sumF32M_nonRep "
+    "finish_eq tail_eq create_fold foldl_pushPair foldl_pushAuto explicit_fold_ok explicit_fold_noauto explicit_fold_err "
+    "collapse_first_last stream_repeat_auto stream_cycle_auto neg_part pos_part autoN_eq").split()]
+    + ["Slice." + t for t in ("sumU16M_eq sumF32M_unwrap foldlM_append foldlM_pure Stream.take_cycle").split()])
+TIE_TRACKS = ["TieTracks." + t for t in (
+    "compute_free_space_eq fit_content_limit_eq ext_min_eq fit_content_limited_growth_limit_eq "
+    "flush_planned_base_size_increases_eq flush_planned_growth_limit_increases_eq initialize_track_sizes_eq "
+    "stretch_auto_tracks_eq find_size_of_fr_eq ofOption_toOpt mulGe_eq mulLt_eq frAccumulate_eq_foldl acc_fold loop_spec "
+    "loop_isSome").split()]
+TIE_SLICES_TRUSTED = ("tier T (grid track initialisation): Generated/{TrackFns,GridInit}.lean are translated from src/style/grid.rs, "
+                      "src/geometry.rs (AbsoluteAxis, Size::get_abs), src/compute/grid/types/{grid_track,grid_track_counts}.rs and "
+                      "src/compute/grid/explicit_grid.rs on every run (verif/extract/src/{slices,gridinit}.rs, my code): u16 + - *, usize - % "
+                      "and Option::unwrap are operations of Except GErr bound in Rust's evaluation order (usize + * are plain Nat "
+                      "operations), slices / Vecs / finite iterators are Lists, cycle() / core::iter::repeat are Slice.Stream, a loop is a "
+                      "fold over the tuple of the outer locals its body assigns, a &mut parameter is returned, Vec::reserve is not "
+                      "modelled (its argument is evaluated); the vocabulary gets its meaning in Model/SliceOps.lean (hand-written); "
+                      "MinTrackSizingFunction / MaxTrackSizingFunction are translated against the abstract inductives (tag -> constructor, "
+                      "x.0.is_*() -> the tag set read off CompactLength::is_*, the constructor set of each wrapper compared with its pub "
+                      "const fn constructors, calc() dropped); GridTrack::growth_limit has the type Ext; struct / enum definitions are "
+                      "compared with the Lean types; Generated/TrackSizing.lean: the flush functions, initialize_track_sizes, find_size_of_fr, "
+                      "stretch_auto_tracks of track_sizing.rs (a loop over &mut elements is List.map; `loop { ..; if c { break; } }` is Slice.loop "
+                      "with the fuel of the hand-written model, tracks.len() + 2; `a * e >= c` / `a * e < c` with a possibly infinite e are "
+                      "Slice.Ext.mulGe / mulLt; an extended value used in * / or stored in a plain f32 place "
+                      "must be finite: Slice.Ext.toFinite, an explicit outcome shown unreachable by the tie; `tree` is used only as the calc "
+                      "resolver and is not translated); Props/TieTrackFns.lean, Props/TieGridInit.lean and Props/TieTracks.lean prove every "
+                      "generated definition equal to Model/GridTracksInit.lean / Model/FrSize.lean for all arguments")
+
+
+def _add_tie_slices(pid):
+    c = PROPS[pid]
+    for module, theorems in (("TaffyVerif.Props.TieTrackFns", TIE_TRACKFNS), ("TaffyVerif.Props.TieGridInit", TIE_GRIDINIT),
+                             ("TaffyVerif.Props.TieTracks", TIE_TRACKS)):
+        if module not in c["modules"]:
+            c["modules"] = list(c["modules"]) + [module]
+        c["theorems"] = list(c["theorems"]) + [t for t in theorems if t not in c["theorems"]]
+    c["trusted_base"] = list(c.get("trusted_base", [])) + [TIE_SLICES_TRUSTED]
+
+
+for _pid in ("C09", "C03", "C04", "C12"):
+    _add_tie_slices(_pid)
+
 # Tier T for TaffyTree's structural methods (src/tree/taffy_tree.rs): every statement of every structural method is translated from
 # the source on every run (extract/src/treeops.rs -> Generated/TreeOps.lean, programs of the monad Model/TreeInterp.lean);
 # Props/TieTree.lean proves each translated method equal to the hand-written model function of Model/Tree.lean on EVERY state and
